@@ -137,6 +137,23 @@ def gen(shard, rng, tier):
             spec, ch = _cli(rng, "encode", b)
             steps = [{"cli": spec}, {"cli": {"argv": ["hex", "decode"], "stdin_from": 0}}]
             yield {"j": "encode", "profile": "dev" if n % 5 == 0 else "release", "x": {"cls": "length", "data": b.hex(), "channel": ch}, "steps": steps}
+        if shard["part"] == 1:
+            for n in (65535, 65536, 100000, 1 << 20):
+                b = rand_bytes(rng, n)
+                spec, ch = _cli(rng, "encode", b)
+                yield {"j": "encode", "profile": "release", "x": {"cls": "big", "data": b.hex(), "channel": ch}, "steps": [{"cli": spec}]}
+        if shard["part"] == 2:
+            # bytes that text-oriented input handling tends to eat: trailing / leading newlines, CR LF, NUL, BOM, only white space
+            for b in (b"\n", b"\r\n", b"abc\n", b"abc\r\n", b"abc\n\n", b"\nabc", b" abc ", b"\x00", b"abc\x00", b"\xef\xbb\xbfabc", b" ", b"\t\n", b"0x41",
+                      b"\x1a", b"\x04", b"\xff\n", rand_bytes(rng, 100) + b"\n", rand_bytes(rng, 4096) + b"\n"):
+                for chan in ("stdin", "stdin-default", "file"):
+                    if chan == "file":
+                        spec, ch = {"argv": ["hex", "encode", "@FILE:in.dat@"], "files": {"in.dat": b.hex()}, "stdin_hex": None}, "file"
+                    else:
+                        spec, ch = {"argv": ["hex", "encode"] + (["-"] if chan == "stdin" else []), "files": {}, "stdin_hex": b.hex()}, "stdin"
+                    for p in ("release", "dev"):
+                        yield {"j": "encode", "profile": p, "x": {"cls": "edge-bytes", "data": b.hex(), "channel": ch},
+                               "steps": [{"cli": spec}, {"cli": {"argv": ["hex", "decode"], "stdin_from": 0}}]}
         if shard["part"] == 0:
             b = bytes(range(256))
             for p in ("dev", "release"):
